@@ -15,7 +15,7 @@ def certBody (k : Nat) : Bool :=
   let s := PS.dec k
   allInp fun x =>
     let r := stepPS okAll s x
-    inR r.1 && r.2
+    inR r.1 && r.2 && (r.1.c.role == s.c.role)
 
 def closedOn (t : CodeTree) : Bool := t.all certBody
 
